@@ -202,8 +202,17 @@ def check_C17(run):
     acs = run.generate("ApiCancelGen", GEN_CFG, ["ac_scen.ndjson"])["ac_scen.ndjson"]
     table_replay(run, acs * (4 if thorough else 1), ["apicancel"], "ApiCancel", TR_CFG, "C17 client API (receive / Call / Upgrade-receive / blocked Send) under cancel, deadline, pre-cancelled context", shards=5,
                  nontrivial=lambda c: '"ctxs":"other"' in c)
+    # ... and through the client stubs the interface generator emits (their receive functions take a context too)
+    from props_idl import build_generator
+    import shutil
+    genbin = build_generator(run)
+    work = os.path.join(run.scratch, "stubctx-work")
+    table_replay(run, ['{"stubs":true}'], ["stubctx", "-genbin", genbin, "-work", work], "ApiCancel", TR_CFG,
+                 "C17 generated client stubs (Send's / Upgrade's receive, Call) under cancel, deadline, pre-cancelled context", shards=1,
+                 nontrivial=lambda c: '"stub-receive"' in c)
+    shutil.rmtree(work, ignore_errors=True)
     run.write_evidence("model_checking",
-        "write direction: environment histories of spec/CtxIOWGen.tla (Write of 8 B / 4 MiB with live, cancellable, pre-cancelled, deadline contexts; peer reads once / drains / stays silent; CANCEL while the Write is blocked on full kernel buffers) enumerated exhaustively up to 6 actions, seeded sample replayed over unix (8 KiB socket buffers), tcp (128 KiB) and a bridge subprocess; each Write's result records byte-count class, error class, lateness, helpers left and the write deadline the connection is left with; the peer verifies per operation that all / a prefix / none of its buffer arrived, in call order, unaltered; API-level scenarios of spec/ApiCancel.tla (45: receive after Send / Call / Upgrade's receive x cancel / deadline / pre-cancelled x receive context same as or different from the send context x unix / tcp / bridge; silent scripted server; then a late frame must reach a live caller on the same connection); schedules as for C18 but with cancellable, pre-cancelled and deadline contexts; CANCEL placed by TLC at every quiescent instant (before the call, blocked with nothing in flight, frame partially received, data buffered); transports unix socketpair, TCP loopback, in-memory pipe, bridge subprocess (relay child; stream obtained through Connection.Upgrade); each operation's result records error class, bytes, lateness (> 2 s) and ctxio helper goroutines left; non-trivial = at least one operation returned the context error",
+        "write direction: environment histories of spec/CtxIOWGen.tla (Write of 8 B / 4 MiB with live, cancellable, pre-cancelled, deadline contexts; peer reads once / drains / stays silent; CANCEL while the Write is blocked on full kernel buffers) enumerated exhaustively up to 6 actions, seeded sample replayed over unix (8 KiB socket buffers), tcp (128 KiB) and a bridge subprocess; each Write's result records byte-count class, error class, lateness, helpers left and the write deadline the connection is left with; the peer verifies per operation that all / a prefix / none of its buffer arrived, in call order, unaltered; API-level scenarios of spec/ApiCancel.tla (45: receive after Send / Call / Upgrade's receive x cancel / deadline / pre-cancelled x receive context same as or different from the send context x unix / tcp / bridge; silent scripted server; then a late frame must reach a live caller on the same connection; 9 more through the stubs emitted by the generator built from /repo: receive of a generated Send / Upgrade with a context of its own, generated Call, against a real service whose handler stays silent); schedules as for C18 but with cancellable, pre-cancelled and deadline contexts; CANCEL placed by TLC at every quiescent instant (before the call, blocked with nothing in flight, frame partially received, data buffered); transports unix socketpair, TCP loopback, in-memory pipe, bridge subprocess (relay child; stream obtained through Connection.Upgrade); each operation's result records error class, bytes, lateness (> 2 s) and ctxio helper goroutines left; non-trivial = at least one operation returned the context error",
         exhaustive=False,
         assumptions=["'promptly' is one-sided: 2 s where the normal latency is well under 5 ms",
                      "on the bridge the library's reads cannot be observed, quiescence is 'nothing happened for ~30 ms'"])
